@@ -26,6 +26,8 @@ typedef struct McBounds {
     int horizon;          /* max visible steps per execution (livelock guard) */
     long max_execs;       /* cap on executions (0 = none); hitting it reports the bound as not completed */
     double deadline_s;    /* wall-clock budget (0 = none) */
+    long spin_patience;   /* -S n: a spinning thread is parked only after n identical observations (default 1) */
+    int tso;              /* -B: x86-TSO store buffers (a delayed store counts as a deviation) */
 } McBounds;
 
 /* explicit visible step: lets the scheduler switch threads here (needed inside critical sections) */
